@@ -491,10 +491,12 @@ pub fn actx() -> Vec<RV> {
         RV::Float(-2.5e-10),
         RV::Float(100.0),
     ];
-    for s in ["a", "+", "-", "...", "a.b", "λ-1", "x1", "<=?", "e5", "->", "f", "nil", "t"] {
+    // one representative per scanner path of the symbol lexer: plain, sign alone, sign + letter,
+    // sign + dot (peculiar), sign + non-ASCII, dot-initial, non-ASCII-initial
+    for s in ["a", "+", "-", "...", "a.b", "λ-1", "x1", "<=?", "e5", "->", "f", "nil", "t", "+.a", "-..", "-λ", "+a", ".a", "..", "λ"] {
         v.push(RV::sym(s));
     }
-    for s in ["a", "k-w", "λ", "x1", "+", "e"] {
+    for s in ["a", "k-w", "λ", "x1", "+", "e", "-.λ"] {
         v.push(RV::kw(s));
     }
     for c in ['x', '(', ')', ' ', '"', '#', ';', '\\', '\x7f', 'λ', '\u{10FFFF}', '\n', '\0', '[', ']', '.', '?', 'a', '1', '|', '\'', ','] {
@@ -515,6 +517,8 @@ pub fn a12() -> Vec<RV> {
         RV::sym("a"),
         RV::sym("+"),
         RV::sym("..."),
+        RV::sym("+.a"),
+        RV::sym("-λ"),
         RV::Int(-7),
         RV::Float(1.5),
         RV::Float(1e21),
